@@ -8,6 +8,7 @@ import DateutilVerif.Proofs.FactorySingle
 import DateutilVerif.Proofs.FactoryRank
 import DateutilVerif.Proofs.FactoryTerm
 import DateutilVerif.Proofs.GettzResolve
+import DateutilVerif.Proofs.FactorySim
 
 namespace C18
 open Fact
@@ -330,6 +331,53 @@ theorem variant_decreases :
 example : measure (initState 8 [[.call 0, .setSize 2], [.call 0, .clear]]) = 45 := by decide
 
 example : rank { strong := [(0, 0), (1, 1)] } { pc := .sLoop } = 7 := by decide
+
+/-! ### The state machine is what the source says
+
+`harness/translate_factory.py` translates, on every run, the bodies of `_TzSingleton.__call__`,
+`_TzFactory.instance`, `_TzOffsetFactory.__call__`, `_TzStrFactory.__call__`, `GettzFunc.__call__`,
+`GettzFunc.set_cache_size` and `GettzFunc.cache_clear` from /repo's working tree into the statement IR of
+Model/FactoryIR.lean (Generated/FactoryPrograms.lean).  `stepIR` flattens a program into instructions with
+program counters and executes the instruction at the thread's pc. -/
+
+/-- for the GENERATED programs (tzoffset and tzstr flavours), interpreting the translated source is the
+hand-written `tstep`, at every pc, for every factory kind, on every state — so every theorem above, stated
+about `tstep` / `step` / `Reachable`, is a theorem about what the source says now.  An edit of a translated
+method makes the translation fail (`Untranslatable`) or makes this theorem (or the `code_*` layout lemmas it
+uses internally) fail to check. -/
+theorem program_sim (kd : Kind) (res : Key → Res) (t : Tid) (g : Glob) (th : Thread) :
+    IR.stepIR Gen.offsetPrograms kd res t g th = tstep kd res t g th ∧
+    IR.stepIR Gen.strPrograms kd res t g th = tstep kd res t g th :=
+  ⟨IR.program_sim_offset kd res t g th, IR.program_sim_str kd res t g th⟩
+
+/-- the same for the whole machine (thread statements, drops, collections) -/
+theorem program_sim_machine (kd : Kind) (res : Key → Res) (s : State) (l : Label) :
+    IR.stepState Gen.offsetPrograms kd res s l = step kd res s l ∧
+    IR.stepState Gen.strPrograms kd res s l = step kd res s l :=
+  ⟨IR.stepState_offset kd res s l, IR.stepState_str kd res s l⟩
+
+/-- the reachable states of the machine that runs the translated programs are exactly the `Reachable`
+states the theorems quantify over -/
+theorem reachable_translated {s0 : State} :
+    (IR.ReachableIR Gen.offsetPrograms kd res s0 s ↔ Reachable kd res s0 s) ∧
+    (IR.ReachableIR Gen.strPrograms kd res s0 s ↔ Reachable kd res s0 s) :=
+  ⟨IR.reachableIR_offset, IR.reachableIR_str⟩
+
+/-- the headline property restated directly over the translated source: in every state the tzstr (resp.
+tzoffset) factory, as its source reads now, can reach — any threads, scripts, schedule, drops, collections —
+one key has one object among all the references callers hold -/
+theorem unique_live_lru_source
+    (h : IR.ReachableIR Gen.strPrograms .lru res (initState cap scripts) s ∨
+         IR.ReachableIR Gen.offsetPrograms .lru res (initState cap scripts) s)
+    {r r' : Ref} (hr : r ∈ s.g.held) (hr' : r' ∈ s.g.held) (hkey : r.key = r'.key) : r.id = r'.id := by
+  rcases h with h | h
+  · exact unique_live_lru (IR.reachableIR_str.mp h) hr hr' hkey
+  · exact unique_live_lru (IR.reachableIR_offset.mp h) hr hr' hkey
+
+/-- non-vacuity: the generated tzoffset program has 14 instructions, its 4th constructs the object and
+jumps to the exceptional `with` exit (index 13) if the constructor raises -/
+example : (IR.code Gen.offsetPrograms .lruCall).length = 14 ∧
+    (IR.code Gen.offsetPrograms .lruCall)[3]? = some ⟨.alloc, 4, 13⟩ := by decide
 
 /-! ### tzutc(): `_TzSingleton.__call__` -/
 
